@@ -177,4 +177,19 @@ PROPS = {
         "assumptions": ["file size metadata is durable at the point it was observed", "a sync makes every earlier write durable; writes are torn at 512-byte sectors, the header record at 8-byte words",
                         "fallocate is invisible to the shim (raw system call); its effect is taken from the recorded file size"],
     },
+    "C11": {
+        "level": "fault_enumeration",
+        "rule": "faults = for each target transaction (small, multi-page value, nested+sibling bucket deletes, many pages, growing by one / two extension "
+                "steps) on a prepared file with a non-empty free list: the commit's libc write / fsync calls are counted first, then EVERY call index is "
+                "failed in a fresh run: write -> EIO, ENOSPC, genuine short write (half written) then EIO, and 'every call from here on fails'; "
+                "fsync -> EIO; extension -> RLIMIT_FSIZE at 6 limits around the needed size; plus sampled pairs (one fault in this commit, one in the next). "
+                "Oracle per run: commit must not panic; Ok only if the new state is visible; same handle shows exactly pre or post state; the header on "
+                "file parses as a sound tree; the next writer's free set is disjoint from the live pages; DB::check; three follow-up transactions "
+                "commit and read back; after reopen the model state is read back and DB::check passes. exhaustive=true: every single call index of every "
+                "target was failed. non-trivial = run in which the armed fault actually fired.",
+        "run": generic(thorough_profiles=(), env=SHIM_ENV, pre=build_shim),
+        "floors": {"any": {"injected_runs": 200, "faults_that_fired": 150, "commit_returned_err": 100, "follow_up_transactions_verified": 300,
+                           "extension_failures_by_file_size_limit": 3}},
+        "assumptions": ["faults are injected at the libc boundary; fallocate failures are produced with RLIMIT_FSIZE because fs4 bypasses libc"],
+    },
 }
